@@ -167,26 +167,69 @@ def run_driver(ctx, binary, family, out, cases=None, extra=None, config="default
     return p.stdout
 
 
-EV_RE = re.compile(r'<<"EV", (\d+), (-?\d+), "(ok|MISMATCH)", (.*)>>\s*$')
+EV_START = re.compile(r'<<\s*"EV",')
+EV_HEAD = re.compile(r'<<\s*"EV",\s*(\d+),\s*(-?\d+),\s*"(ok|MISMATCH)",\s*(.*)>>$', re.S)
 
 
-def validate_trace(ctx, module, cfg, trace, shards=None, timeout=3000, per_shard_workers=3, classify=None):
+def parse_ev(out):
+    """Extract the <<"EV", index, id, status, detail>> tuples printed by the trace specs.
+    TLC pretty-prints long values over several lines, so tuples are matched by bracket depth."""
+    res = {}
+    pos = 0
+    while True:
+        m = EV_START.search(out, pos)
+        if not m:
+            break
+        i, depth = m.start(), 0
+        j = i
+        while j < len(out):
+            if out.startswith("<<", j):
+                depth += 1
+                j += 2
+                continue
+            if out.startswith(">>", j):
+                depth -= 1
+                j += 2
+                if depth == 0:
+                    break
+                continue
+            j += 1
+        txt = " ".join(out[i:j].split())
+        h = EV_HEAD.match(txt)
+        if h:
+            res[int(h.group(1))] = (h.group(3), h.group(4).strip())
+        pos = j
+    return res
+
+
+def validate_trace(ctx, module, cfg, trace, shards=None, timeout=3000, per_shard_workers=3, classify=None,
+                   presharded=None, countable=lambda ev: ev.get("op") != "entry"):
     """R3: validate an ndjson trace against the TLA+ trace spec, sharded over processes.
-    Every event must be answered by exactly one EV line.  Returns the list of
-    (event, detail) mismatches."""
-    lines = open(trace).read().splitlines()
-    n = len(lines)
-    if n == 0:
-        raise Infra("empty trace " + trace)
-    shards = shards or max(1, min(NCPU // per_shard_workers, (n + 199) // 200))
+    Every countable event must be answered by exactly one EV line.  `presharded` is a list of
+    self-contained shard files written by the driver (used when events refer to each other).
+    Returns the list of (event, detail) mismatches."""
     files = []
-    for s in range(shards):
-        part = lines[s::shards]
-        if not part:
-            continue
-        fn = "%s.shard%d" % (trace, s)
-        open(fn, "w").write("\n".join(part) + "\n")
-        files.append((fn, part))
+    if presharded:
+        for fn in presharded:
+            part = open(fn).read().splitlines()
+            if part:
+                files.append((fn, part))
+        n = sum(len(p) for _, p in files)
+    else:
+        lines = open(trace).read().splitlines()
+        n = len(lines)
+        if n == 0:
+            raise Infra("empty trace " + trace)
+        shards = shards or max(1, min(NCPU // per_shard_workers, (n + 199) // 200))
+        for s in range(shards):
+            part = lines[s::shards]
+            if not part:
+                continue
+            fn = "%s.shard%d" % (trace, s)
+            open(fn, "w").write("\n".join(part) + "\n")
+            files.append((fn, part))
+    if not files:
+        raise Infra("empty trace " + str(trace))
     from concurrent.futures import ThreadPoolExecutor
     t = time.time()
 
@@ -198,33 +241,38 @@ def validate_trace(ctx, module, cfg, trace, shards=None, timeout=3000, per_shard
     mism = []
     with ThreadPoolExecutor(max_workers=len(files)) as ex:
         results = list(ex.map(one, files))
+    counted = 0
     for fn, part, rc, out in results:
-        seen = {}
-        for ln in out.splitlines():
-            m = EV_RE.match(ln.strip())
-            if m:
-                seen[int(m.group(1))] = (m.group(3), m.group(4))
+        seen = parse_ev(out)
+        evs = [json.loads(x) for x in part]
+        want = set(i + 1 for i, ev in enumerate(evs) if countable(ev))
         complete = "Model checking completed. No error has been found." in out
-        if not complete or len(seen) != len(part):
+        if not complete or set(seen) != want:
             open(os.path.join(ctx.work, "tlc_error.txt"), "w").write(out)
             raise Infra("trace validation did not complete for %s: %d/%d events answered (see %s/tlc_error.txt)\n%s"
-                        % (fn, len(seen), len(part), ctx.work, out[-3000:]))
+                        % (fn, len(seen), len(want), ctx.work, out[-3000:]))
+        counted += len(want)
         for i, (st, detail) in seen.items():
-            ev = json.loads(part[i - 1])
+            ev = evs[i - 1]
             if classify:
                 k = classify(ev)
                 ctx.class_counts[k] = ctx.class_counts.get(k, 0) + 1
             if st == "MISMATCH":
+                if "refs" in ev:   # attach the referenced entries for the replay file
+                    ev = dict(ev)
+                    ev["entries"] = [evs[r - 1] for r in ev["refs"] if 0 < r <= len(evs)][:300]
                 mism.append((ev, detail))
-        os.remove(fn)
-    ctx.events += n
+        if not presharded:
+            os.remove(fn)
+    ctx.events += counted
     ctx.traces += 1
     ctx.log("R3 %s: %d events validated by TLC in %.1fs (%d shards), %d mismatches"
-            % (os.path.basename(trace), n, time.time() - t, len(files), len(mism)))
+            % (os.path.basename(str(trace)), counted, time.time() - t, len(files), len(mism)))
     # samples: a few events, trimmed
-    for ln in lines[:: max(1, n // 3)][:3]:
+    allp = [x for _, part in files for x in part]
+    for ln in allp[:: max(1, len(allp) // 3)][:3]:
         ev = json.loads(ln)
-        ctx.samples.append({k: v for k, v in ev.items() if k not in ("msg", "ctx", "sig")})
+        ctx.samples.append({k: (v if len(json.dumps(v)) < 400 else "...") for k, v in ev.items() if k not in ("msg", "ctx", "sig", "key")})
     return mism
 
 
